@@ -547,7 +547,7 @@ def _meta_check(fname, scene, rel):
             a0 = a.copy()
             m0 = None if mask is None else mask.copy()
             r = np.asarray(fn_(a, mask=mask), float)
-            if not np.array_equal(a, a0) or (
+            if not np.array_equal(a, a0, equal_nan=True) or (
                     mask is not None and not np.array_equal(mask, m0)):
                 raise AssertionError('input modified')
             return r
@@ -586,6 +586,16 @@ def _meta_check(fname, scene, rel):
         if np.max(np.abs(r - base)) > tol:
             return f'{fname}: data * {k} gives {tuple(r)}, expected ' \
                    f'{tuple(base)}'
+    elif rel == 'nonfinite':
+        # NaN / +-inf pixels are excluded exactly like masked ones
+        mask = np.zeros(img.shape, bool)
+        mask[5, 9] = mask[2, 3] = mask[9, 10] = True
+        d = img.copy()
+        d[mask] = [np.nan, np.inf, -np.inf]
+        ra, rb = run(d), run(img, mask)
+        if not np.allclose(ra, rb, rtol=0, atol=tol, equal_nan=True):
+            return f'{fname}: non-finite pixels {tuple(ra)} vs the same ' \
+                   f'pixels masked {tuple(rb)}'
     elif rel == 'masked-values':
         mask = np.zeros(img.shape, bool)
         mask[2, 3] = mask[12, 13] = mask[6, 9] = True
@@ -603,7 +613,7 @@ def _run_meta(case):
     cnt = dict(n=0)
     samples = []
     rels = ['symmetry', 'flipx', 'flipy', 'transpose', 'scale-big',
-            'scale-small', 'masked-values']
+            'scale-small', 'masked-values', 'nonfinite']
 
     def fn(ctx):
         fname = ctx.choice('func', META_FUNCS)
